@@ -32,14 +32,37 @@ def _worker(pid, tier, seed, idx, n, budget_s, replay_case):
       os.dup2(fd, 2)
     core.pin_environment()
     mod = importlib.import_module("vf.props." + pid.lower())
-    ctx = core.Ctx(pid, tier, seed, idx, n, budget_s)
-    if replay_case is not None:
-      mod.replay(ctx, replay_case)
-    else:
-      if idx == 0:
-        core.run_committed_replays(ctx, mod)
-      mod.run(ctx)
-    return ctx.result()
+    last = None
+    for attempt in (0, 1):
+      # A worker that dies with an unexpected exception (seen once: a transient
+      # TF autograph KeyError('__class__') while converting a layer constructor
+      # on the first model a process builds) is re-run once from scratch in a
+      # fresh Keras session; a deterministic harness bug fails twice -> exit 2.
+      ctx = core.Ctx(pid, tier, seed, idx, n, budget_s)
+      try:
+        if replay_case is not None:
+          mod.replay(ctx, replay_case)
+        else:
+          if idx == 0:
+            core.run_committed_replays(ctx, mod)
+          mod.run(ctx)
+        res = ctx.result()
+        if attempt:
+          res["info"]["worker_retried"] = 1
+        return res
+      except core.HarnessError:
+        raise
+      except Exception as e:  # pylint: disable=broad-except
+        last = e
+        sys.stderr.write("worker %d attempt %d failed: %s\n%s\n" % (
+            idx, attempt, e, traceback.format_exc()))
+        try:
+          import tensorflow as tf  # pylint: disable=g-import-not-at-top
+          tf.keras.backend.clear_session()
+          core.reset_globals()
+        except Exception:  # pylint: disable=broad-except
+          pass
+    raise last
   except core.HarnessError as e:
     return {"harness_error": "%s" % e, "trace": traceback.format_exc()}
   except BaseException as e:  # pylint: disable=broad-except
